@@ -439,6 +439,107 @@ def failures_leave_no_trace(r, gen, table, rng):
                         {"content": content})
 
 
+def parsed_objects_are_independent(r, gen, table, rng):
+    """Two messages with byte-identical payloads (a forwarded sticker, the same caption twice) parse into two objects: editing what was parsed
+    first - as an application does before forwarding - changes neither what the second parse returns nor what it serialises to.  And an
+    empty-but-present context (a peer's context holding only fields this library does not model; an application's ContextInfoAttributes())
+    stays present."""
+    from yowsup.layers.protocol_messages.protocolentities.attributes.converter import AttributesConverter
+    from yowsup.layers.protocol_messages.protocolentities.attributes import attributes_message, attributes_context_info, attributes_extendedtext
+    conv = AttributesConverter.get()
+    for content in ["extended_text", "image", "contact", "location"]:
+        r.case(("same-bytes-twice", content))
+        try:
+            o = gen.message(1, "all", content)
+            data = bytes(conv.message_to_protobytes(build(o, gen.values)))
+            first = conv.protobytes_to_message(data)
+            before = project(conv.protobytes_to_message(data), "Message", table)
+            _scramble_any(first)
+            second = conv.protobytes_to_message(data)
+            after = project(second, "Message", table)
+            again = bytes(conv.message_to_protobytes(second))
+        except Exception as e:
+            r.violation("same-bytes:exception:%s" % content, "parsing one %s payload twice and editing the first result raised %r" % (content, e), {"content": content})
+            continue
+        if first is second or after != before or again != data:
+            r.violation("same-bytes:shared:%s" % content, "one %s payload parsed twice: after editing the first result in place the second parse %s" % (
+                content, "IS the same object" if first is second else ("differs: %s" % diff_paths(before, after)[:3] if after != before else "re-serialises differently")), {"content": content})
+    # empty but present context
+    r.case(("empty-context",))
+    try:
+        m = attributes_message.MessageAttributes(extended_text=attributes_extendedtext.ExtendedTextAttributes(u"reply", None, None, None, None, None, attributes_context_info.ContextInfoAttributes()))
+        data = bytes(conv.message_to_protobytes(m))
+        fields = parse_generic(data)
+        ctx = [v for (num, wt, v) in parse_generic(dict_first(fields, 6)) if num == 17]
+        back = conv.protobytes_to_message(data)
+        kept = back.extended_text is not None and back.extended_text.context_info is not None
+        again = bytes(conv.message_to_protobytes(back))
+    except Exception as e:
+        r.violation("empty-context:exception", "an extended text with an empty context raised %r" % (e,), {})
+        return
+    if not ctx or not kept or again != data:
+        r.violation("empty-context:dropped", "an extended text composed with an empty ContextInfoAttributes(): context field on the wire %s, after parsing %s, re-serialised %s" % (
+            "present" if ctx else "ABSENT", "present" if kept else "absent", "unchanged" if again == data else "changed"), {})
+
+
+def _scramble_any(x, depth=0):
+    """Edit every editable part of a parsed attribute object in place."""
+    if x is None or depth > 6 or not hasattr(x, "__dict__"):
+        return
+    for nm, val in list(vars(x).items()):
+        if isinstance(val, list):
+            val.append("4915770009999@s.whatsapp.net")
+        elif isinstance(val, str):
+            try:
+                setattr(x, nm, val + u" (edited)")
+            except Exception:
+                pass
+        elif hasattr(val, "__dict__"):
+            _scramble_any(val, depth + 1)
+
+
+def parse_generic(data):
+    """[(field number, wire type, value)] of one protobuf message (generic reader)."""
+    out, i = [], 0
+    data = bytes(data)
+
+    def varint(i):
+        v, sh = 0, 0
+        while True:
+            b = data[i]
+            i += 1
+            v |= (b & 0x7F) << sh
+            sh += 7
+            if not b & 0x80:
+                return v, i
+    while i < len(data):
+        key, i = varint(i)
+        num, wt = key >> 3, key & 7
+        if wt == 0:
+            v, i = varint(i)
+        elif wt == 2:
+            n, i = varint(i)
+            v = data[i:i + n]
+            i += n
+        elif wt == 1:
+            v = data[i:i + 8]
+            i += 8
+        elif wt == 5:
+            v = data[i:i + 4]
+            i += 4
+        else:
+            raise ValueError("wire type %d" % wt)
+        out.append((num, wt, v))
+    return out
+
+
+def dict_first(fields, num):
+    for n, wt, v in fields:
+        if n == num:
+            return v
+    return b""
+
+
 def run():
     r = core.Run("C10", "exploration")
     thorough = r.tier == "thorough"
@@ -537,6 +638,7 @@ def run():
             r.sample({"object": o, "expected_wire_paths": [list(x[0]) for x in exp][:12]})
     object_isolation(r, gen, table, rng)
     failures_leave_no_trace(r, gen, table, rng)
+    parsed_objects_are_independent(r, gen, table, rng)
     entity_histories(r, gen, table, rng, thorough)
     r.assumptions += core.ENV_ASSUMPTIONS[:1] + ["field numbers / wire types are frozen from the protobuf descriptor embedded in e2e_pb2.py (spec/PayloadSchema.tla)",
                       "document file_length lives both on the document and on its downloadable-media attributes; the generator sets them equal",
